@@ -315,7 +315,7 @@ def check(v, prop):
     for cfg in cfgs:
         (n, cwl, fail), kinds = SHAPES[cfg]
         if not thorough:
-            kinds = kinds[:2]
+            kinds = kinds[:1] if prop == 'C09' else kinds[:2]
         for kind in kinds:
             graphreplay.replay(v, 'Source', cfg, _mk(kind, n, cwl, fail, prop, 'replenish' in cfg), _apply, _compare, _state, prop=prop,
                                label='source_%s_%s' % (cfg.replace('Source_', '').replace('.cfg', ''), kind), describe=desc, nondet=True)
